@@ -110,6 +110,39 @@ func c08StopServer(s *BgpServer) {
 	}
 }
 
+// c08PeerAnnounce: the UPDATE of the scripted peer for 10.99.7.0/24, written octet by octet
+func c08PeerAnnounce(rm *c08Remote, c *c08Cfg, withID bool) []byte {
+	attrs := c08Attr(0x40, 1, []byte{0})
+	seg := []byte{}
+	if rm.realAS != c.localAs { // eBGP: our AS first
+		seg = []byte{2, 1}
+		if rm.as4 {
+			seg = binary.BigEndian.AppendUint32(seg, rm.realAS)
+		} else {
+			seg = binary.BigEndian.AppendUint16(seg, uint16(rm.realAS))
+		}
+	}
+	attrs = append(attrs, c08Attr(0x40, 2, seg)...)
+	attrs = append(attrs, c08Attr(0x40, 3, []byte{10, 9, 9, 9})...)
+	if rm.realAS == c.localAs {
+		attrs = append(attrs, c08Attr(0x40, 5, []byte{0, 0, 0, 100})...)
+	}
+	nlri := []byte{24, 10, 99, 7}
+	if withID {
+		nlri = append([]byte{0, 0, 0, 77}, nlri...)
+	}
+	body := []byte{0, 0}
+	body = binary.BigEndian.AppendUint16(body, uint16(len(attrs)))
+	body = append(append(body, attrs...), nlri...)
+	msg := make([]byte, 16, 19+len(body))
+	for i := range msg {
+		msg[i] = 0xff
+	}
+	msg = binary.BigEndian.AppendUint16(msg, uint16(19+len(body)))
+	msg = append(msg, bgp.BGP_MSG_UPDATE)
+	return append(msg, body...)
+}
+
 func c08SessionCfg(r *vRand) *c08Cfg {
 	c := c08GenCfg(r, false)
 	c.localRestarting = false
@@ -295,6 +328,34 @@ func c08Session(t *testing.T, o *vOut, r *vRand, c *c08Cfg, spec *c08OpenSpec, s
 		o.fail("listpeer-negotiated-values", c08Detail(c, opens, fmt.Sprint(shown.GetTimers().GetState(), shown.GetState().GetPeerAsn(), shown.GetState().GetType())))
 	}
 
+	// 2b. the peer announces 10.99.7.0/24, hand-encoded the way the PROPERTY prescribes for this session
+	// (path identifier iff we are configured to receive and the peer announced send; AS numbers 4
+	// octets wide iff the peer announced the capability): the route must be installed.
+	_, v4neg := c08FamilyMap(peer.fsm)[bgp.RF_IPv4_UC]
+	inject := v4neg && !rm.apConfl[bgp.RF_IPv4_UC]
+	injectWithID := false
+	if inject {
+		for _, a := range c.afs {
+			if a.fam == bgp.RF_IPv4_UC && a.recv && rm.apAny[bgp.RF_IPv4_UC]&2 != 0 {
+				injectWithID = true
+			}
+		}
+		go cli.Write(c08PeerAnnounce(rm, c, injectWithID))
+	}
+	injectChecked, diedEarly := false, false
+	checkInjected := func() {
+		if !inject || injectChecked {
+			return
+		}
+		injectChecked = true
+		n := peer.adjRibIn.Count([]bgp.Family{bgp.RF_IPv4_UC})
+		o.stat(fmt.Sprintf("session_route_received_pathid_%d_as4_%d", c08B(injectWithID), c08B(rm.as4)), 1)
+		if n != 1 || peer.fsm.state.Load() != bgp.BGP_FSM_ESTABLISHED {
+			o.fail("addpath-not-consumed-on-receive", c08Detail(c, opens, fmt.Sprintf("the peer announced 10.99.7.0/24 %s path identifier, %d-octet AS numbers: %d routes in the Adj-RIB-In, session %s",
+				map[bool]string{true: "with", false: "without"}[injectWithID], map[bool]int{true: 4, false: 2}[rm.as4], n, peer.fsm.state.String())))
+		}
+	}
+
 	// 3. what the server sends now: the UPDATE for 10.77.0.0/24 (if IPv4 unicast is active), then
 	// keepalives at the negotiated period, then – we stay silent – the hold-timer NOTIFICATION.
 	fm := c08FamilyMap(peer.fsm)
@@ -369,9 +430,14 @@ func c08Session(t *testing.T, o *vOut, r *vRand, c *c08Cfg, spec *c08OpenSpec, s
 			o.stat(fmt.Sprintf("session_update_as4_%d_addpath_%d", c08B(rm.as4), c08B(sendAP)), 1)
 		case bgp.BGP_MSG_KEEPALIVE:
 			kaTimes = append(kaTimes, time.Since(tEst))
+			checkInjected()
 		case bgp.BGP_MSG_NOTIFICATION:
 			if raw[19] == bgp.BGP_ERROR_HOLD_TIMER_EXPIRED {
 				holdAt = time.Since(tEst)
+			} else if inject && !injectChecked {
+				injectChecked, diedEarly = true, true
+				o.fail("addpath-not-consumed-on-receive", c08Detail(c, opens, fmt.Sprintf("the peer's UPDATE (path identifier %v, %d-octet AS) was answered with NOTIFICATION %d/%d",
+					injectWithID, map[bool]int{true: 4, false: 2}[rm.as4], raw[19], raw[20])))
 			}
 			n = 1 << 30
 		}
@@ -386,6 +452,9 @@ func c08Session(t *testing.T, o *vOut, r *vRand, c *c08Cfg, spec *c08OpenSpec, s
 		}
 	}
 	_ = t0
+	if holdAt < 0 {
+		checkInjected() // sessions without timers: judged once the server has gone quiet
+	}
 	if confl {
 		o.stat("session_update_check_skipped_conflicting_addpath", 1)
 	}
@@ -413,6 +482,9 @@ func c08Session(t *testing.T, o *vOut, r *vRand, c *c08Cfg, spec *c08OpenSpec, s
 	}
 	if v4 && !gotUpdate && !confl {
 		o.fail("session-no-update-sent", c08Detail(c, opens, "IPv4 unicast negotiated but the local route was not advertised"))
+	}
+	if diedEarly {
+		return // the session was torn down over the peer's UPDATE (reported above): no timers to judge
 	}
 	// keepalive period
 	ka3 := c.ka3
@@ -557,6 +629,24 @@ func TestVerifC08Session(t *testing.T) {
 			spec.version = 4
 			spec.hold = uint16(r.pick(0, 3, 6, 9, 30, 90, 180, 65535))
 			spec.id = 0x0a090909
+		}
+		if i%5 == 2 {
+			// every negotiated ADD-PATH mode of IPv4 unicast at session level, by construction: the four
+			// local modes in turn against a peer announcing both directions; AS width alternates
+			lm := (i / 5) % 4
+			c.peerAs = realAS
+			for k := range c.afs {
+				if c.afs[k].fam == bgp.RF_IPv4_UC {
+					c.afs[k].recv, c.afs[k].sendMax = lm&1 != 0, uint8(lm&2)
+				}
+			}
+			caps := []bgp.ParameterCapabilityInterface{bgp.NewCapMultiProtocol(bgp.RF_IPv4_UC),
+				bgp.NewCapAddPath([]*bgp.CapAddPathTuple{bgp.NewCapAddPathTuple(bgp.RF_IPv4_UC, bgp.BGP_ADD_PATH_BOTH)})}
+			if realAS > 65535 || (i/20)%2 == 0 {
+				caps = append(caps, bgp.NewCapFourOctetASNumber(realAS))
+			}
+			spec = &c08OpenSpec{version: 4, myAS: spec.myAS, hold: 90, id: 0x0a090909,
+				params: []bgp.OptionParameterInterface{bgp.NewOptionParameterCapability(caps)}}
 		}
 		sweep := i%2 == 1
 		synctest.Test(t, func(t *testing.T) { c08Session(t, o, r, c, spec, sweep) })
